@@ -7,6 +7,7 @@ package main
 
 import (
 	"bytes"
+	"encoding/json"
 	"fmt"
 	"io"
 	"os"
@@ -56,7 +57,13 @@ func main() {
 		os.Exit(parent(id))
 	}
 	debug.SetMaxStack(256 << 20)
+	if jp := os.Getenv("VF_JOURNAL"); jp != "" {
+		par.InitJournal(jp)
+	}
 	r := ev.New(id, tier, c.level)
+	if k := os.Getenv("VF_ONLYKEY"); k != "" {
+		r.OnlyKey = k
+	}
 	for i := 3; i+1 < len(os.Args); i++ {
 		if os.Args[i] == "--replay" {
 			k, err := ev.ReadReplayKey(os.Args[i+1])
@@ -84,11 +91,16 @@ func main() {
 
 // parent runs the check in a child and turns an abnormal death into a report.
 func parent(id string) int {
+	work := os.Getenv("VF_WORK")
+	if work == "" {
+		work = os.TempDir()
+	}
+	jpath := filepath.Join(work, "journal."+id)
 	cmd := exec.Command(os.Args[0], os.Args[1:]...)
-	cmd.Env = append(os.Environ(), "VF_CHILD=1")
+	cmd.Env = append(os.Environ(), "VF_CHILD=1", "VF_JOURNAL="+jpath)
 	cmd.Stdout = os.Stdout
 	var tail tailBuf
-	cmd.Stderr = io.MultiWriter(os.Stderr, &tail)
+	cmd.Stderr = io.MultiWriter(&capWriter{w: os.Stderr, left: 1 << 16}, &tail)
 	err := cmd.Run()
 	if err == nil {
 		return 0
@@ -101,9 +113,42 @@ func parent(id string) int {
 	os.MkdirAll(filepath.Join(ev.Root, "replays"), 0o755)
 	p := filepath.Join(ev.Root, "replays", fmt.Sprintf("%s-crash-%d.log", id, time.Now().Unix()))
 	os.WriteFile(p, []byte(tail.String()), 0o644)
-	fmt.Printf("the check process died (exit %d); last output saved\n", code)
-	fmt.Printf("VIOLATION property=%s replay=%s\n", id, p)
+	fmt.Printf("the check process died (exit %d); last output saved to %s\n", code, p)
+	// Which case was it? Re-run every case that was in flight, each in its own process.
+	culprits := 0
+	for i, k := range par.ReadJournal(jpath) {
+		c2 := exec.Command(os.Args[0], os.Args[1:]...)
+		c2.Env = append(os.Environ(), "VF_CHILD=1", "VF_ONLYKEY="+k, "VERIF_ROOT="+filepath.Join(work, "crashprobe"))
+		var t2 tailBuf
+		c2.Stderr = &t2
+		if err := c2.Run(); err != nil && c2.ProcessState.ExitCode() != 1 && isCrash(t2.String()) {
+			culprits++
+			rp := filepath.Join(ev.Root, "replays", fmt.Sprintf("%s-crash-%d-%d.json", id, time.Now().Unix(), i))
+			b, _ := json.MarshalIndent(map[string]any{"property": id, "case_key": k, "detail": map[string]any{"class": "fatal", "stderr_head": head(t2.String(), 3000)}}, "", " ")
+			os.WriteFile(rp, b, 0o644)
+			fmt.Printf("VIOLATION property=%s replay=%s\n  case: %s\n  fatal: %s\n", id, rp, head(k, 500), firstLine(t2.String()))
+		}
+	}
+	if culprits == 0 {
+		fmt.Printf("VIOLATION property=%s replay=%s\n", id, p)
+	}
 	return 1
+}
+
+func head(s string, n int) string {
+	if len(s) > n {
+		return s[:n]
+	}
+	return s
+}
+
+func firstLine(s string) string {
+	for _, l := range strings.Split(s, "\n") {
+		if strings.Contains(l, "fatal error:") || strings.HasPrefix(l, "panic:") {
+			return l
+		}
+	}
+	return head(s, 200)
 }
 
 func isCrash(s string) bool {
@@ -125,3 +170,21 @@ func (t *tailBuf) Write(p []byte) (int, error) {
 	return len(p), nil
 }
 func (t *tailBuf) String() string { return t.b.String() }
+
+// capWriter forwards at most `left` bytes (a crashing child prints every goroutine's stack).
+type capWriter struct {
+	w    io.Writer
+	left int
+}
+
+func (c *capWriter) Write(p []byte) (int, error) {
+	if c.left > 0 {
+		q := p
+		if len(q) > c.left {
+			q = q[:c.left]
+		}
+		c.w.Write(q)
+		c.left -= len(q)
+	}
+	return len(p), nil
+}
